@@ -264,6 +264,11 @@ func (g *genState) anyVal(depth int) *gt.Node {
 			}
 			return m
 		}
+	case 5:
+		if depth == 1 {
+			// the value of an unknown key may be null
+			return gt.NullN()
+		}
 	}
 	return gt.StrN(fmt.Sprintf("s%d", g.sent()))
 }
@@ -693,8 +698,20 @@ func prefill(ts *typeSpec, v reflect.Value, doc *gt.Node, seed int) {
 			}
 		}
 		switch {
+		case f.Inline == "msa" && doc != nil:
+			// a catch-all that was used before: it already holds entries under unknown names that THIS
+			// document supplies again (possibly as null) - each is consumed by the catch-all, so the stale
+			// value goes. (Only names the document supplies: whether other old entries stay is not stated.)
+			for _, k := range []string{"zz", "u1", "u2"} {
+				if doc.Has(k) {
+					if fv.IsNil() {
+						fv.Set(reflect.MakeMap(fv.Type()))
+					}
+					fv.SetMapIndex(reflect.ValueOf(k), reflect.ValueOf(any("stale")))
+				}
+			}
 		case f.Inline != "":
-			// inline targets start empty
+			// other inline targets start empty
 		case f.Kind == "str":
 			fv.SetString(fmt.Sprintf("pre%d-%d", seed, i))
 		case f.Kind == "int":
